@@ -104,6 +104,13 @@ Theorem C12_errlog_isolated : forall sched s t ok e,
   out (thr s t) = Some (if ok then PValid else PFault (Some e)).
 Proof. exact (r_errlog_isolated V base over1 over2 has_prot mf sf reqs). Qed.
 
+(** ... also when validate() itself raises (XMLSchemaValidateError, e.g. an entity reference left
+    in the tree): the lock is released and the fault carries the text of that exception *)
+Theorem C12_validator_error_isolated : forall sched s t e,
+  run Repaired reqs sched (init Repaired reqs) = Some s ->
+  reqs t = RValidateX e -> tpc (thr s t) = Done -> out (thr s t) = Some (PFault (Some e)).
+Proof. exact (r_validator_error_isolated V base over1 over2 has_prot mf sf reqs). Qed.
+
 (** the three locks exclude: two threads inside the same critical section are one thread *)
 Theorem C12_mutual_exclusion : forall sched s t u,
   run Repaired reqs sched (init Repaired reqs) = Some s ->
@@ -127,7 +134,7 @@ Proof. exact text_is_model_text. Qed.
 
 (** on every listed path through the GENERATED skeletons (first request / later request /
     builder already has the document / waited for the lock; cache miss / hit; valid /
-    invalid payload; memo miss / hit / filled between the two checks) the step function of
+    invalid payload / validate() raising; memo miss / hit / filled between the two checks) the step function of
     the model performs exactly the shared accesses of the path, in the same order *)
 Theorem C12_text_paths : paths_ok Repaired g_wsdl g_attrs g_validate g_memo g_sort = true.
 Proof. exact text_paths. Qed.
@@ -164,29 +171,29 @@ Proof. exact pinned_errlog_refuted. Qed.
 
 (** ---- non-vacuity *)
 
-(** a concrete 6-thread interleaving of the repaired program in which all five kinds of
+(** a concrete 7-thread interleaving of the repaired program in which all six kinds of
     request run to completion (the hypotheses of C12_built_once, _served_whole,
-    _no_interference, _schedule_independent, _memo/_attrs/_sort_transparent and
-    _errlog_isolated are met by a non-trivial reachable state), with one build and the
+    _no_interference, _schedule_independent, _memo/_attrs/_sort_transparent,
+    _errlog_isolated and _validator_error_isolated are met by a non-trivial reachable state), with one build and the
     sequential answers *)
 Definition ex_reqs (t : Z) : req :=
   if t =? 0 then RWsdl else if t =? 1 then RWsdl else if t =? 2 then RValidate false 5
   else if t =? 3 then RAttrs [1; 1; 2] else if t =? 4 then RMemo [3; 3]
-  else if t =? 5 then RSort [4; 4] else RIdle.
+  else if t =? 5 then RSort [4; 4] else if t =? 6 then RValidateX 9 else RIdle.
 Definition ex_sched : list Z :=
-  [0;1;2;3;4;5;0;1;2;3;4;5;0;2;2;3;4;5;0;3;3;3;4;0;3;3;4;4;0;4;0;0;0;1;1;1].
+  [0;1;2;3;4;5;0;1;2;3;4;5;0;2;2;3;4;5;0;3;3;3;4;0;3;3;4;4;0;4;0;0;0;1;1;1;6;6;6].
 Example C12_ex_all_finish :
   exists s, crun Repaired ex_reqs ex_sched (cinit Repaired ex_reqs) = Some s /\
-    forallb (fun t => match tpc (thr s t) with Done => true | _ => false end) [0;1;2;3;4;5] = true /\
+    forallb (fun t => match tpc (thr s t) with Done => true | _ => false end) [0;1;2;3;4;5;6] = true /\
     b_gen s = 1 /\ out (thr s 1) = Some (PWsdl (Some 0)) /\ out (thr s 2) = Some (PFault (Some 5)) /\
     out (thr s 3) = Some (PVals [13; 13; 20]) /\ out (thr s 4) = Some (PVals [24; 24]) /\
-    out (thr s 5) = Some (PVals [404; 404]).
+    out (thr s 5) = Some (PVals [404; 404]) /\ out (thr s 6) = Some (PFault (Some 9)).
 Proof. eexists. vm_compute. repeat split. Qed.
 (** the same state is quiescent (hypothesis of C12_all_served), and the schedule uses the
     step budget of C12_steps_bounded without exhausting it *)
 Example C12_ex_quiescent :
   exists s, crun Repaired ex_reqs ex_sched (cinit Repaired ex_reqs) = Some s /\
-    forallb (fun u => match cstep Repaired ex_reqs s u with None => true | Some _ => false end) [0;1;2;3;4;5;6] = true /\
+    forallb (fun u => match cstep Repaired ex_reqs s u with None => true | Some _ => false end) [0;1;2;3;4;5;6;7] = true /\
     count 3 ex_sched = 8 /\ bound (ex_reqs 3) = 27.
 Proof. eexists. vm_compute. repeat split. Qed.
 (** a blocked thread exists in a reachable state (the locks do something; hypothesis of
@@ -195,11 +202,11 @@ Example C12_ex_blocks :
   exists s, crun Repaired ex_reqs [0;0;0;1;1] (cinit Repaired ex_reqs) = Some s /\
     cstep Repaired ex_reqs s 1 = None /\ tpc (thr s 1) = W_acq /\ in_wcrit (tpc (thr s 0)) = true.
 Proof. eexists. vm_compute. repeat split. Qed.
-(** the text theorems are not about an empty table: 13 paths, and the pinned skeletons are
+(** the text theorems are not about an empty table: 15 paths, and the pinned skeletons are
     rejected by the same test (and accepted by the pinned model) *)
 Example C12_ex_text :
   (length (wsdl_paths Repaired) + length (attrs_paths Repaired) + length (validate_paths Repaired)
-   + length memo_paths + length sort_paths = 14)%nat /\
+   + length memo_paths + length sort_paths = 15)%nat /\
   paths_ok Repaired (text_wsdl Pinned) g_attrs g_validate g_memo g_sort = false /\
   paths_ok Repaired g_wsdl (text_attrs Pinned) g_validate g_memo g_sort = false /\
   paths_ok Repaired g_wsdl g_attrs (text_validate Pinned) g_memo g_sort = false /\
